@@ -344,7 +344,7 @@ func main() {
 		r.WriteGen("C01_Tables.lean", genTables())
 		return
 	}
-	nProg, nMut, nHist, batchSize := 120, 40, 6, 8
+	nProg, nMut, nHist, batchSize := 90, 30, 6, 8
 	if r.Thorough {
 		nProg, nMut, nHist, batchSize = 2600, 1200, 12, 12
 	}
@@ -634,6 +634,12 @@ func main() {
 			r.Sample(res.Src)
 		}
 	}
+	nNoRec := 300
+	if r.Thorough {
+		nNoRec = 5000
+	}
+	runNoRec(r, NewFront(), nNoRec)
+
 	nPanic := 0
 	PanicSources.Range(func(k, v interface{}) bool {
 		nPanic++
